@@ -152,6 +152,13 @@ def build_state(md, sd):
         if kind == 2:
             s = object.__new__(Array)
             _init(s, len(cells))
+            # the attributes Array.__init__ sets besides the header cells (used by __repr__ in log messages)
+            try:
+                nd = cells[1][1]
+                s.element_size = cells[2][1]
+                s.bounds = [(cells[3 + 2 * k][1], cells[4 + 2 * k][1]) for k in range(nd)]
+            except Exception:  # noqa  (a deliberately malformed header)
+                s.element_size, s.bounds = 1, []
         else:
             _, prev, cstart, ra, orig = kind
             s = CallFrame(orig, None, cstart, ra)
